@@ -74,7 +74,9 @@ func solo(kind string, caller int, paradigm string) (objs.Snapshot, error) {
 		s.err = fmt.Errorf("solo run of %s (%s) panics: %s%s", objs.Tag(caller), paradigm, x.MainPanic, x.ThreadPanic)
 	case !s.snap.Done:
 		s.err = fmt.Errorf("solo run of %s (%s) did not return", objs.Tag(caller), paradigm)
-	case s.snap.Err != "":
+	case s.snap.Err == "" && objs.Fails(kind):
+		s.err = fmt.Errorf("solo run of %s (%s) succeeds although the object is built to fail", objs.Tag(caller), paradigm)
+	case s.snap.Err != "" && !objs.Fails(kind):
 		s.err = fmt.Errorf("solo run of %s (%s) fails: %s", objs.Tag(caller), paradigm, s.snap.Err)
 	}
 	if s.err == nil {
